@@ -112,7 +112,7 @@ CHECKS = {
         "logical colour and the last brightness commanded to every hardware channel compared at rest; interpolation "
         "checked for fades started from rest.",
    note="Trusted: virtual loop, reference stack in props/c09.py. Which of two equal-priority entries wins is not judged; "
-        "no colour-correction profile; BFS depth 3 (quick) / 4 (thorough), batched search depth 6 / 8 (with every update held by "
+        "no colour-correction profile; BFS depth 3 (quick) / 4 (thorough), batched search depth 6 / 7 (with every update held by "
         "the environment, and with updates completing at once plus a settle macro step). At every instant the logical colour "
         "must lie within the bounding box of the entries of the stack and of those still fading out.",
    technique="explicit-state BFS of the implementation with a reference model (replay + fork snapshots)",
